@@ -69,6 +69,14 @@ TEXT = {
                    "the mounting of both wrappers in cmd/main.go is the regenerated fact routeMounts.",
              note=_std_note + " HMAC-SHA-2 is an oracle (the harness computes whether a token's MAC matches the current secret); unforgeability is a cryptographic assumption. "
                   "Token verification itself lives in hagall-common and golang-jwt, outside /repo; it is modelled from reading and covered by the correspondence.", technique=_tech + " + auth side harness"),
+ 'C03': dict(level="C03_handle_within (a participant's request keeps the member list and addresses only the sender and members of the sender's session, core and every module), "
+                   "C03_not_joined (a connection in no session changes no session and reaches only itself unless it joins), C03_request_frame / C03_event_frame (in every well-formed - hence every "
+                   "reachable - server state, an event of a connection that is not a participant of session x and does not ask to join x by id leaves x registered exactly as it was and delivers "
+                   "nothing to its participants; ticks, the receipt consumer and new connections never touch a session), C03_history_frame (the same over any history), C03_local (a request's "
+                   "deliveries and new session record are a function of the sender's own session record). Frame + locality are the unwinding conditions of noninterference; the trace-equivalence "
+                   "form itself (same streams with the other sessions' traffic removed) is NOT a Lean theorem here: it is measured on the real server by re-running histories without the outsiders.",
+             note=_std_note + " Reuse of a session id after the earlier session ended is covered through C07_fresh_session / C10 (uuid never reused) and by the cross-session monitors.",
+             technique=_tech + " + noninterference re-run on the real server"),
  'C11': dict(level="C11_order: for every interleaving of receives, frame ticks and consumptions on a connection's scheduler (the model of hagall-common's coalescing map + FIFO, "
                    "with the main loop free to take any item of a flushed group), the pose updates of an entity consumed so far followed by those in flight are a subsequence, in order, "
                    "of the updates received, and their last element is the latest received; C11_latest_arrives: once nothing is in flight the last consumed is the last received; "
@@ -92,7 +100,6 @@ _na = ("Lean proof applies to the sequential part of this property and a model e
        "so the property is not claimed rather than decided by a weaker technique; see DESIGN.md section 0.3. ")
 NA = {
  'C01': _na + "The view-convergence simulation over Session.handle is unfinished; the schedule clause needs the lock-granularity layer, which is not built.",
- 'C03': _na + "Frame lemmas (Proofs/Frame.lean) exist; the noninterference theorem (re-running a history without the other sessions' traffic) is unfinished.",
  'C08': "Process-level robustness (server keeps running, handler returns, goroutines end, gauge restored, idle timeout) lives in the runtime: it needs a wire-level harness and a "
         "model of the handler's goroutines and channels (Layer L), neither of which is built. Panics and wedges found on the way (pose without pose, dagaz requests) were fixed in /repo; "
         "see DESIGN.md section 0.4.",
